@@ -127,6 +127,15 @@ class Tr:
                 fail(n, 'unsupported operator on numbers')
             return f'({f} O {fa} {fb})', 'F'
         if isinstance(n, ast.Compare):
+            if len(n.ops) == 1 and isinstance(n.ops[0], (ast.Lt, ast.Gt)):
+                a, ta = self.expr(n.left, env)
+                if ta == 'mat':            # A < c / A > c: the boolean mask of the entries
+                    b, tb = self.expr(n.comparators[0], env)
+                    if tb not in ('F', 'Z'):
+                        fail(n, 'a matrix can only be compared with a scalar')
+                    c = self.toF(b, tb, n)
+                    p = f'nltb O x {c}' if isinstance(n.ops[0], ast.Lt) else f'nltb O {c} x'
+                    return f'(np_mcmp (fun x => {p}) {a})', 'bmat'
             return self.compare(n, env), 'bool'
         if isinstance(n, ast.List):
             items = [self.expr(e, env) for e in n.elts]
@@ -243,10 +252,23 @@ class Tr:
                 return f'(map cdf {a})', 'vecF'
             if ta in ('F', 'Z'):
                 return f'(cdf {self.toF(a, ta, n)})', 'F'
+        if name == '_verif_where' and len(args) == 3:      # X[mask] = v, rewritten by the slicer
+            m, tm = self.expr(args[0], env)
+            v, tv = self.expr(args[1], env)
+            a, ta = self.expr(args[2], env)
+            if tm == 'bmat' and ta == 'mat' and tv in ('F', 'Z'):
+                return f'(np_mwhere {m} {self.toF(v, tv, n)} {a})', 'mat'
+            fail(n, 'unsupported masked assignment')
+        if isinstance(n.func, ast.Attribute) and n.func.attr in ('max', 'min') and not args:
+            a, ta = self.expr(n.func.value, env)
+            if ta == 'vecF':
+                return f'(py_{n.func.attr} O {a})', 'F'
         if name == 'np.sqrt' and len(args) == 1:
             a, ta = self.expr(args[0], env)
             if ta in ('vecF', 'col', 'row'):
                 return f'(map (nsqrt O) {a})', ta
+            if ta == 'mat':
+                return f'(np_mmap (nsqrt O) {a})', 'mat'
             if ta == 'F':
                 return f'(nsqrt O {a})', 'F'
         if name in ('np.abs', 'abs') and len(args) == 1:
@@ -478,7 +500,7 @@ def ind(s):
 
 
 COQTY = dict(Z='Z', F='F', optZ='option Z', listZ='list Z', bool='bool', mat='list (list F)', col='list F',
-             row='list F', vecF='list F')
+             row='list F', vecF='list F', bmat='list (list bool)')
 
 
 def retty(r):
@@ -568,6 +590,19 @@ def translate_slice(spec, tree):
     fn = Replace(table).visit(ast.parse(ast.unparse(fn)).body[0])
     ast.fix_missing_locations(fn)
 
+    if spec.get('masked_assign'):
+        # X[M] = v with a boolean mask M (a comparison or a name) is the assignment X = where(M, v, X)
+        class Masked(ast.NodeTransformer):
+            def visit_Assign(self, node):
+                t = node.targets[0] if len(node.targets) == 1 else None
+                if isinstance(t, ast.Subscript) and isinstance(t.value, ast.Name) \
+                        and isinstance(t.slice, (ast.Compare, ast.Name)):
+                    call = ast.Call(func=ast.Name(id='_verif_where', ctx=ast.Load()),
+                                    args=[t.slice, node.value, ast.Name(id=t.value.id, ctx=ast.Load())], keywords=[])
+                    return ast.copy_location(ast.Assign(targets=[ast.Name(id=t.value.id, ctx=ast.Store())], value=call), node)
+                return node
+        fn = ast.fix_missing_locations(Masked().visit(fn))
+
     def norm(text):      # statements named in the registry are written as in the source
         return ast.unparse(ast.fix_missing_locations(Replace(table).visit(ast.parse(text)))).strip()
     spec = dict(spec)
@@ -595,8 +630,35 @@ def translate_slice(spec, tree):
         if len(cands) != 1:
             raise Unsupported(f"{spec['func']}: expected exactly one loop `{spec['loop_header']}`, found {len(cands)}")
         loop = cands[0]
-        after = [ast.unparse(s) for s in fn.body[fn.body.index(loop) + 1:]]
-        if after != [norm(t) for t in spec.get('expected_after_loop', [])]:
+        after_nodes = fn.body[fn.body.index(loop) + 1:]
+        after = [ast.unparse(s) for s in after_nodes]
+        if 'loop_array' in spec:
+            # the array the loop fills is afterwards only read, by exactly the declared statements
+            arr = spec['loop_array']
+            uses = []
+            for s in after_nodes:
+                if arr in names_stored(s):
+                    fail(s, 'the array filled by the loop is re-assigned afterwards')
+                hit = False
+                for c in ast.walk(s):
+                    if isinstance(c, (ast.Subscript, ast.Attribute)) and isinstance(c.ctx, (ast.Store, ast.Del)):
+                        base = c.value
+                        while isinstance(base, (ast.Subscript, ast.Attribute)):
+                            base = base.value
+                        if isinstance(base, ast.Name) and base.id == arr:
+                            fail(s, 'the array filled by the loop is modified afterwards')
+                    if isinstance(c, ast.Call) and (call_name(c) or '').split('.')[-1] in MUTATORS \
+                            and arr in names_read(c):
+                        fail(s, 'the array filled by the loop may be mutated afterwards')
+                    if isinstance(c, ast.AugAssign) and arr in names_read(c.target):
+                        fail(s, 'the array filled by the loop is modified afterwards')
+                    if isinstance(c, ast.Name) and c.id == arr:
+                        hit = True
+                if hit:
+                    uses.append(ast.unparse(s))
+            if uses != [norm(t) for t in spec.get('expected_uses_after', [])]:
+                raise Unsupported(f"{spec['func']}: the array filled by the loop is used differently than declared: {uses}")
+        elif after != [norm(t) for t in spec.get('expected_after_loop', [])]:
             raise Unsupported(f"{spec['func']}: statements after the loop differ from the declared ones: {after}")
         stores = spec.get('store_outputs', {})
         seen = {k: 0 for k in stores}
